@@ -67,7 +67,10 @@ fn gen_case(rng: &mut Rng, threads: usize) -> Case {
         // stale rows behind to trigger a compaction in which the prefix keeps its position
         let kind = ["new", "max"][rng.below(2)];
         let pre = 1 + rng.below(8) as u32; let churn = 12 + rng.below(20) as u32; let rounds = 2 + rng.below(4) as u32;
-        ops.push(Op::Merge(vec![], (0..pre).map(|k| vec![k, 0]).collect()));
+        // the untouched prefix either has a timestamp bucket of its own or shares its bucket with the first round of
+        // churned rows (then the first superseded row lies strictly INSIDE a bucket whose leading rows stay live)
+        if rng.chance(1, 2) { ops.push(Op::Merge(vec![], (0..pre).map(|k| vec![k, 0]).collect())); }
+        else { ops.push(Op::Merge(vec![], (0..pre).map(|k| vec![k, 0]).chain((0..churn).map(|k| vec![100 + k, 0])).collect())); }
         for r in 1..=rounds { ops.push(Op::Merge(vec![], (0..churn).map(|k| vec![100 + k, r]).collect())); if rng.chance(1, 3) { ops.push(Op::Merge(vec![], vec![vec![200 + r, 0]])); } }
         return Case { nkeys: 1, kind, sorted, ops, threads };
     }
